@@ -14,6 +14,7 @@ import (
 	"strings"
 
 	"github.com/free5gc/nas/logger"
+	"github.com/sirupsen/logrus"
 )
 
 type Writer struct {
@@ -89,9 +90,17 @@ func Runes(s string) []int {
 	return o
 }
 
-// Quiet sends the library's logging to io.Discard.
+// Quiet sends the library's logging to io.Discard and fixes the logging LEVEL of this process: a driver's seeded `record`
+// stream (and any run with VERIF_LOGTRACE=1) runs with the logger at trace level, everything else at the library's default.
+// The level is configuration the properties do not mention: results must not depend on it, and code that only runs when
+// verbose logging is on (dumps, formatting of attacker-supplied text) is exercised by every check's recorded stream.
 func Quiet() {
-	logger.GetLogger().SetOutput(io.Discard)
+	l := logger.GetLogger()
+	l.SetOutput(io.Discard)
+	v := os.Getenv("VERIF_LOGTRACE")
+	if v == "1" || (v != "0" && len(os.Args) > 1 && os.Args[1] == "record") {
+		l.SetLevel(logrus.TraceLevel)
+	}
 }
 
 type PanicInfo struct {
